@@ -40,6 +40,10 @@ func (s *Struct) Assign(gen Generator, ctx *MethodContext, assignTo *AssignTo, s
 	usedSourceID := false
 	for i := 0; i < target.StructType.NumFields(); i++ {
 		targetField := target.StructType.Field(i)
+		if targetField.Name() == "_" {
+			// blank fields cannot be referred to
+			continue
+		}
 		delete(definedFields, targetField.Name())
 
 		fieldMapping := ctx.Field(target, targetField.Name())
